@@ -78,19 +78,6 @@ def jModel (j : Json) : Except String Model := do
   pure { imports := ← jImports j "imp", graph := ← jGraph (← j.getObjVal? "g"),
          funcs := ← fs.toList.mapM jFunc }
 
-/-- canonical rendering of annotations (for diffing against the Python side) -/
-def Dim.render : Dim → String
-  | .known n => toString n
-  | .sym s => "'" ++ s ++ "'"
-  | .unk => "?"
-
-def Annot.render (a : Annot) : String :=
-  let dt := match a.dtype with | none => "-" | some d => toString d
-  let ds := match a.dims with
-    | none => "-"
-    | some l => "[" ++ ",".intercalate (l.map Dim.render) ++ "]"
-  dt ++ ":" ++ ds
-
 /-- Generic stdin loop: one JSON request per line, one answer line per request. -/
 partial def driverLoop (h : IO.FS.Stream) (step : Json → Except String String) : IO Unit := do
   let line ← h.getLine
